@@ -289,10 +289,9 @@ impl<F: Read + Write + Seek> Flusher<F> for FlushBuffer {
             stream.buf_offset_from_start,
             stream.buffer.filled_slice(),
         )?;
-        debug_assert_eq!(
-            minialloc.read().unwrap().dir_entry(stream.stream_id).stream_len,
-            stream.total_len
-        );
+        // (The directory entry's length need not equal `stream.total_len`
+        // here: the stream may have been resized or extended through another
+        // handle since this one last looked.)
         Ok(())
     }
 }
